@@ -94,7 +94,7 @@ def rule_route(ctx):
                         if d and d["name"] == "fit" and len(x["args"]) >= 2:
                             child_masks[f["name"]] = local_of(x["args"][1])
         if set(child_masks) != {"left_child", "right_child"} or None in child_masks.values():
-            res.violate("%s : child-masks" % key, "cannot identify the row masks of the two recursive fits (fail closed)", fn_loc(fn))
+            res.undecided("%s : child-masks" % key, "cannot identify the row masks of the two recursive fits (fail closed)", fn_loc(fn))
             continue
         # the If whose branches mark those masks
         for n in walk(fn["body"]):
@@ -116,7 +116,7 @@ def rule_route(ctx):
             fit_loc = fn_loc(fn, n["ln"])
             res.instance("%s : training rows go left iff feature %s split" % (key, fit_op))
         if fit_op is None:
-            res.violate("%s : fit-routing" % key, "mask-building comparison between feature value and split value not found (fail closed)", fn_loc(fn))
+            res.undecided("%s : fit-routing" % key, "mask-building comparison between feature value and split value not found (fail closed)", fn_loc(fn))
     # --- predict side
     for fn in find_fn(res, F, "make_prediction"):
         c = fn["crate"]
@@ -142,7 +142,7 @@ def rule_route(ctx):
                 pred_loc = fn_loc(fn, n["ln"])
                 res.instance("%s : prediction descends left iff feature %s split" % (key, op))
         if pred_op is None:
-            res.violate("%s : predict-routing" % key, "descent comparison between feature value and split value not found (fail closed)", fn_loc(fn))
+            res.undecided("%s : predict-routing" % key, "descent comparison between feature value and split value not found (fail closed)", fn_loc(fn))
     if fit_op and pred_op:
         res.sample({"fit": "left iff feature %s split" % fit_op, "predict": "left iff feature %s split" % pred_op})
         if fit_op == pred_op:
@@ -167,15 +167,27 @@ def has(sub):
     return lambda a: sub in a
 
 
+def side_accumulators(fn):
+    """names of the locals that are updated with += / -= by a value derived from the sample weights"""
+    deps, deps_of = local_deps(fn)
+    out = []
+    for x in walk(fn["body"]):
+        if x.get("k") == "AssignOp" and x["op"] in ("+", "-"):
+            t = peel_refs(x["l"])
+            if t.get("k") == "Path" and "local" in t and deps_of(x["r"]) & WEIGHT_SOURCES:
+                out.append(t.get("name"))
+    return out
+
+
 def rule_limits(ctx):
     res = RuleResult("R-C14-limits", "split creation is dominated by the min_weight_split / max_depth / min_impurity_decrease tests; candidates below min_weight_leaf are skipped; children get depth + 1")
     F = ctx.facts()
     for fn in find_fn(res, F, "fit", "TreeNode"):
         key = fn_key(fn)
-        tr = Tracer(fn).run()
+        tr = Tracer(fn, inline=ctx.inliner(keep=("fit",))).run()
         rec = [e for e in tr.events if e.kind == "call" and e.name == "fit" and e.d and (e.d.get("self_adt") or "").endswith("TreeNode")]
         if len(rec) < 2:
-            res.violate("%s : recursion" % key, "expected two recursive fits (left and right child), found %d" % len(rec), fn_loc(fn))
+            res.undecided("%s : recursion" % key, "expected two recursive fits (left and right child), found %d" % len(rec), fn_loc(fn))
             continue
         first_rec = min(e.order for e in rec)
         # children at depth + 1
@@ -193,22 +205,29 @@ def rule_limits(ctx):
         def find_guard(events, a_sub, b_sub):
             """some event guarded (positively) by `a < b` / `a <= b`"""
             verdicts = []
+            from .sym import sufficient_cmps
             for e in events:
-                for sign, c in guard_cmps(e):
-                    v = c.asserts_less(has(a_sub), has(b_sub))
-                    if v:
-                        if sign == "-":
-                            v = {"strict": "reversed", "weak": "reversed", "reversed": "weak"}[v]
-                        verdicts.append(v)
+                for g in e.guards:
+                    # comparisons each of which alone takes this exit (disjuncts of the guard, negated conjuncts of an else)
+                    for c, holds in sufficient_cmps(g[3], g[0] == "+"):
+                        v = c.asserts_less(has(a_sub), has(b_sub))
+                        if v:
+                            if not holds:
+                                v = {"strict": "reversed", "weak": "reversed", "reversed": "weak"}[v]
+                            verdicts.append(v)
             return verdicts
 
+        # the two side-weight accumulators are found structurally (locals updated by sample weights), not by name
+        acc_names = sorted(set(nm for nm in side_accumulators(fn)))
         checks = [
             ("min_weight_split", rets, "nsamples", "min_weight_split", "leaf when nsamples < min_weight_split"),
             ("max_depth", rets, "max_depth", "param:depth", "leaf when depth >= max_depth"),
             ("min_impurity_decrease", rets, "", "min_impurity_decrease", "leaf when impurity decrease < min_impurity_decrease"),
-            ("min_weight_leaf(right)", conts, "weight_on_right", "min_weight_leaf", "candidate skipped when right weight < min_weight_leaf"),
-            ("min_weight_leaf(left)", conts, "weight_on_left", "min_weight_leaf", "candidate skipped when left weight < min_weight_leaf"),
         ]
+        for i, nm in enumerate(acc_names):
+            checks.append(("min_weight_leaf(%s)" % ("side %d" % (i + 1)), conts, ":%s@" % nm, "min_weight_leaf", "candidate skipped when side weight #%d < min_weight_leaf" % (i + 1)))
+        if len(acc_names) != 2:
+            res.undecided("%s : side-weights" % key, "expected two side-weight accumulators updated by the sample weights in the sweep, found %s (fail closed)" % acc_names, fn_loc(fn))
         for name, evs, a, b, what in checks:
             res.instance("%s : %s" % (key, what))
             v = find_guard(evs, a, b)
@@ -219,7 +238,9 @@ def rule_limits(ctx):
             elif "reversed" in v:
                 res.violate("%s : limit-reversed:%s" % (key, name), "the %s test is reversed: expected %s" % (name, what), fn_loc(fn))
             else:
-                res.violate("%s : limit-missing:%s" % (key, name), "no early exit guarded by the %s test before the split is created (expected: %s)" % (name, what), fn_loc(fn))
+                from .sym import sufficient_cmps as _suff
+                opaque = [e for e in evs if e.guards and not any(_suff(g[3], g[0] == "+") for g in e.guards)]
+                res.violate("%s : limit-missing:%s" % (key, name), "no early exit guarded by the %s test before the split is created (expected: %s)%s" % (name, what, "; %d exit(s) have conditions this rule cannot read" % len(opaque) if opaque else ""), fn_loc(fn), undecided=bool(opaque))
     return res.finish(7)
 
 
@@ -298,7 +319,7 @@ def rule_weights(ctx):
             res.instance("%s : accumulator `%s`" % (key, name))
             let = inits.get(loc)
             if let is None:
-                res.violate("%s : accumulator-start:%s" % (key, name), "cannot find the initial value of the weight accumulator `%s` (fail closed)" % name, fn_loc(fn, node["ln"]))
+                res.undecided("%s : accumulator-start:%s" % (key, name), "cannot find the initial value of the weight accumulator `%s` (fail closed)" % name, fn_loc(fn, node["ln"]))
                 continue
             init = let["init"]
             # the initial value itself (not later updates): dependencies of the initialiser through other locals' initialisers only
@@ -390,7 +411,7 @@ def rule_layout(ctx):
     if control:
         res.ok()
     else:
-        res.violate("matcher-control", "the raw-buffer matcher recognises nothing in crate linfa, where into_raw_vec is known to be used (the rule would pass vacuously)", "src/dataset/impl_dataset.rs")
+        res.undecided("matcher-control", "the raw-buffer matcher recognises nothing in crate linfa, where into_raw_vec is known to be used (the rule would pass vacuously)", "src/dataset/impl_dataset.rs")
     for f, x, tests in raw_sites(fns):
         key = fn_key(f)
         res.instance("%s : %s" % (key, x["name"]))
@@ -408,7 +429,7 @@ def rule_layout(ctx):
         if (acc or idx) and uses_feature:
             res.ok()
         else:
-            res.violate("%s : column-access" % key, "the feature column is not read through an axis-aware accessor of the records indexed by the feature index (fail closed)", fn_loc(fn))
+            res.undecided("%s : column-access" % key, "the feature column is not read through an axis-aware accessor of the records indexed by the feature index (fail closed)", fn_loc(fn))
     return res.finish(2)
 
 
